@@ -92,11 +92,16 @@ def shard(i: int, n: int, tier: str, seed: int) -> Result:
         def is_member(v):
             return v == 0 or rnd.member(fd, ('fin', v < 0, abs(v)))
 
-        pairs = [(a, b) for a in vals for b in vals]
-        if quick and len(pairs) > 2500:
-            pairs = rng.sample(pairs, 2500)
-        elif len(pairs) > 40000:
-            pairs = rng.sample(pairs, 40000)
+        cap = 2500 if quick else 40000
+        if len(vals) * len(vals) > cap:
+            # sampled without building the full product (81921^2 pairs at p = 13)
+            seen_pairs = set()
+            while len(seen_pairs) < cap:
+                seen_pairs.add((rng.choice(vals), rng.choice(vals)))
+            pairs = sorted(seen_pairs)
+            rng.shuffle(pairs)
+        else:
+            pairs = [(a, b) for a in vals for b in vals]
         for (a, b) in pairs:
             A, B = objs[a], objs[b]
             exact_sum, exact_prod = a + b, a * b
